@@ -50,6 +50,7 @@ type Runner struct {
 	hist     *History
 	results  []string
 	lastSlash []slashEv
+	lastBatch []batchEv // new_batch_request events of the current EndBlock (C18)
 	qLines    []string // sampled query arguments of the current query step (queries.go)
 	qGroup    []string // observation group `query` of the current query step
 	wantDigest bool     // C20: record a state digest after every step
@@ -129,6 +130,7 @@ func hexToBytes(s string) []byte {
 func (r *Runner) exec(o *Op) (res string) {
 	r.w.cbLog = nil
 	r.lastSlash = nil
+	r.lastBatch = nil
 	switch o.Kind {
 	case "endblock":
 		r.ctx = r.ctx.WithEventManager(sdk.NewEventManager())
@@ -143,6 +145,7 @@ func (r *Runner) exec(o *Op) (res string) {
 			res = "ok"
 		}()
 		r.lastSlash = parseSlash(r.ctx.EventManager().ABCIEvents())
+		r.lastBatch = parseNewBatch(r.ctx.EventManager().ABCIEvents())
 		r.height++
 		r.now = r.now.Add(time.Duration(o.Dt))
 		r.ctx = r.ctx.WithBlockHeader(tmproto.Header{Height: r.height, Time: r.now})
